@@ -73,10 +73,12 @@ def _map_lookup_problems(tree, obj, pv, out, top=True):
     if t == "map":
         pairs = list(getattr(obj, "_items", []))
         has_coll = any(V.contains(tree["k"], c) for c in ("list", "set", "map"))
-        if top and pv < 3 and has_coll:
-            feat = ["collection-key", "top-level-pv<3"]
-        elif V.contains(tree["k"], "set"):
+        if V.contains(tree["k"], "set"):
+            # indexed under the sender's element order, looked up under the re-sorted one (any protocol version;
+            # the historical key name is kept)
             feat = ["set-in-key", "v3-format"]
+        elif top and pv < 3 and has_coll:
+            feat = ["collection-key", "top-level-pv<3"]
         else:
             feat = ["scalar-key" if V.core(tree["k"])["t"] in V.SCALARS else ("collection-key" if has_coll else "composite-key"),
                     "top-level-pv<3" if (top and pv < 3) else "v3-format"]
@@ -226,7 +228,7 @@ def interpret_null(case, ctx):
 def parts(tier):
     return [
         hyp_part("roundtrip", s_roundtrip_quick if tier == "quick" else s_roundtrip_thorough, interpret_roundtrip, tier,
-                 quick=1000, thorough=9000, quick_shards=4, thorough_shards=16,
+                 quick=850, thorough=6000, quick_shards=4, thorough_shards=16,
                  # generator-degenerate guard: about one sixth of the fractions seen over five seeds
                  floors={"has:vector": 0.03, "has:udt": 0.03, "has:map": 0.04, "has:set": 0.04, "has:tuple": 0.03,
                          "f:null-inside": 0.035, "f:empty-collection": 0.03, "f:int-boundary": 0.025, "pv:v1-2": 0.06,
